@@ -508,6 +508,42 @@ def run_text_roundtrip(chk, F):
            key='E5t|read_simplex|inf')
 
 
+def run_copy_counters(chk, F):
+    """E1c-counter-copied: a copy equals its source. In the copy constructors of the matrix-level classes a counter
+    (a scalar member whose name starts with `next`, the number of columns / cells inserted so far) is initialised with
+    the same member of the source - not recounted while the columns are copied: the containers can hold reserved,
+    still empty slots (Matrix(numberOfColumns)), which are not columns."""
+    n = 0
+    for f in F.functions:
+        if f.get('kind') != 'copy_ctor' and not (f.get('kind') == 'ctor' and len(f.get('params', [])) == 2 and
+                                                   (f['params'][0].get('t') or '').startswith('const ') and
+                                                   (f.get('clsname') or '') in (f['params'][0].get('t') or '')):
+            continue
+        if f.get('clsname') not in MATRIX_LEVEL + ('Base_matrix_with_column_compression',) or \
+                f.get('inst') not in (0, 2) or f.get('body') is None:
+            continue
+        src = f['params'][0]['n']
+        for ini in f.get('inits') or []:
+            if not (isinstance(ini, dict) and ini.get('written') and (ini.get('member') or '').startswith('next')):
+                continue
+            n += 1
+            m = ini['member']
+            t = ir.show(ini.get('init')) if ini.get('init') is not None else ''
+            ok = re.search(r'(?<!\w)%s\.%s(?!\w)' % (re.escape(src), re.escape(m)), t) is not None
+            rewritten = [x for x in ir.walk(f['body']) if ir.write_target(x) is not None and
+                         ir.show(ir.write_target(x)).replace('this->', '') == m] + \
+                        [x for x in ir.walk(f['body']) if x.get('k') == 'UnaryOperator' and x.get('op') in ('++', '--')
+                         and ir.show(x['c'][0]).replace('this->', '') == m]
+            ok = ok and not rewritten
+            chk.ob('E1c-counter-copied', '%s: the copy takes `%s` from its source' % (f['clsname'], m),
+                   '%s:%d' % (rel(f['file']), f['line']), ok,
+                   '' if ok else '`%s` is initialised with `%s`%s: recounted, it counts the reserved empty slots of the '
+                   'source as columns - the copy reports more columns and inserts its next column further' % (
+                       m, t[:40], ' and changed in the body' if rewritten else ''),
+                   key='E1c|%s|%s|counter-copied' % (f['clsname'], m))
+    chk.expect_count('E1c-counter-copied', 'counters in copy constructors of matrix-level classes', n, 4)
+
+
 def run_scalar_init(chk, F):
     """E1i-scalar-init: the iterators and ranges of the simplex tree are copied around by value (boost::iterator_range,
     filter adaptors): copying an object loads every scalar member, and loading an indeterminate bool / pointer is
@@ -1035,6 +1071,7 @@ def run(tier, replay=None):
     run_settings_alias(chk, F)
     run_conditional_bases(chk, F)
     run_scalar_init(chk, F)
+    run_copy_counters(chk, F)
     run_text_roundtrip(chk, F)
     run_moved_from(chk, F)
     # deserialisation rebuilds the dimension bound of the tree it creates (shared rule C01/R3b)
